@@ -74,6 +74,11 @@ func checkC12(p *Prog, l *Ledger) {
 		})
 	}
 	checkListing(p, l, tn("অব্জেক্ট_কি"), tn("অব্জেক্ট_মান"))
+	// printing an object shows all of its properties: the print statement hands the whole value to the shared text
+	// function (fmt %v), no hand-written traversal that could cut parts short (rule shared with C15)
+	if cs := getClauses(p); cs.account(l) {
+		checkPrintClause(cs, l, "C12/S4-print-whole-value")
+	}
 	checkObjectLiteral(p, l)
 	// objects by reference: no map is ranged over / copied on value paths (eval, environment, Function.Call)
 	bad := false
